@@ -72,6 +72,60 @@ pub enum SrcKind {
     FilePeeked,
     /// `InputFile::new_range(file, origin, None)`: from an offset to the end of the file
     FileRangeToEnd,
+    /// `InputFile::new_range` over a `File::try_clone` of one archive file that holds every such
+    /// content of the work (members of one opened archive: the clones share one open file
+    /// description, so one file offset). All of them are built before the first insertion
+    /// ([`prepare_shared_archive`]) and only stored raw (hint No, plain adder): then nothing but
+    /// the writer's copy moves the shared offset.
+    SharedArchive,
+    /// `InputFile::open(path)`; straight afterwards the name is given to another file of the
+    /// same size with other bytes (a scratch name that is reused): the open descriptor keeps the
+    /// bytes that were handed over
+    FileReplaced,
+}
+
+type ArchiveKey = (std::path::PathBuf, usize);
+static SHARED_ARCHIVE: std::sync::Mutex<Option<HashMap<ArchiveKey, InputFile>>> = std::sync::Mutex::new(None);
+
+/// Build the archive file of a work and one `InputFile` per `SrcKind::SharedArchive` content, all
+/// before the creator sees the first of them; [`make_input`] hands them out.
+pub fn prepare_shared_archive(contents: &[ContentSpec], scratch: &Path, aux_seed: u64) -> std::io::Result<()> {
+    let mut guard = SHARED_ARCHIVE.lock().unwrap_or_else(|e| e.into_inner());
+    let map = guard.get_or_insert_with(HashMap::new);
+    map.retain(|(p, _), _| p != scratch);
+    if !contents.iter().any(|c| c.src == SrcKind::SharedArchive) {
+        return Ok(());
+    }
+    // one archive per destination pack: each pack creator has its own writer thread, and only
+    // one thread may move a shared offset
+    let mut packs: Vec<u16> = contents.iter().filter(|c| c.src == SrcKind::SharedArchive).map(|c| c.pack).collect();
+    packs.sort();
+    packs.dedup();
+    for pack in packs {
+        let p = scratch.join(format!("archive{pack}.bin"));
+        let mut rng = Rng::derive(aux_seed, "shared-archive", pack as u64);
+        let mut origins = vec![];
+        {
+            let mut f = std::fs::File::create(&p)?;
+            let mut at = 0u64;
+            for (idx, c) in contents.iter().enumerate() {
+                if c.src != SrcKind::SharedArchive || c.pack != pack {
+                    continue;
+                }
+                let pad = rng.range(0, 40) as usize;
+                f.write_all(&vec![0xA0 | (idx as u8 & 0xF); pad])?;
+                f.write_all(c.bytes.as_ref())?;
+                origins.push((idx, at + pad as u64, c.bytes.len() as u64));
+                at += (pad + c.bytes.len()) as u64;
+            }
+            f.write_all(&[0xDD; 33])?;
+        }
+        let archive = std::fs::File::open(&p)?;
+        for (idx, origin, len) in origins {
+            map.insert((scratch.to_path_buf(), idx), InputFile::new_range(archive.try_clone()?, origin, Some(len))?);
+        }
+    }
+    Ok(())
 }
 
 #[derive(Clone, Copy, Debug, PartialEq, Eq, Hash)]
@@ -609,6 +663,28 @@ pub fn make_input(
             drop(f);
             Box::new(InputFile::new_range(std::fs::File::open(&p)?, before as u64, None)?)
         }
+        SrcKind::SharedArchive => {
+            let mut guard = SHARED_ARCHIVE.lock().unwrap_or_else(|e| e.into_inner());
+            match guard.as_mut().and_then(|m| m.remove(&(scratch.to_path_buf(), idx))) {
+                Some(f) => Box::new(f),
+                None => return Err(std::io::Error::other("harness: prepare_shared_archive was not called for this work")),
+            }
+        }
+        SrcKind::FileReplaced => {
+            let p = scratch.join(format!("inx{idx}.bin"));
+            std::fs::write(&p, spec.bytes.as_ref())?;
+            let f = InputFile::open(&p)?;
+            let other: Vec<u8> = spec.bytes.iter().map(|b| b ^ 0x5A).collect();
+            let tmp = scratch.join(format!("inx{idx}.new"));
+            std::fs::write(&tmp, &other)?;
+            if idx % 2 == 0 {
+                std::fs::rename(&tmp, &p)?;
+            } else {
+                std::fs::remove_file(&p)?;
+                std::fs::remove_file(&tmp)?;
+            }
+            Box::new(f)
+        }
         SrcKind::Sim => {
             let r = SimReader::new(
                 Arc::clone(&spec.bytes),
@@ -872,6 +948,7 @@ pub fn build(logical: &Logical, dir: &Path, name: &str, opts: &BuildOpts) -> Res
     }
     let scratch = dir.join(format!("{name}.inputs"));
     std::fs::create_dir_all(&scratch)?;
+    prepare_shared_archive(&logical.contents, &scratch, logical.aux_seed)?;
     let r = build_inner(logical, dir, name, &scratch, opts);
     let _ = std::fs::remove_dir_all(&scratch);
     r
